@@ -212,6 +212,9 @@ def shapes(tier, seed):
             out.append(Shape(f"vqe_rdm/sym2/{mp}/utd={int(utd)}/sumspin={int(ss)}", h_vqe_rdm,
                              dict(opts=dict(molecule_key="SYM2", qubit_mapping=mp, up_then_down=utd, ansatz=BuiltInAnsatze.UCCSD), patt="ss", sum_spin=ss),
                              modules=MODS, max_paths=32))
+    out.append(Shape("vqe_rdm/sym2/jw/refstate-override", h_vqe_rdm,
+                     dict(opts=dict(molecule_key="SYM2", qubit_mapping="jw", up_then_down=False, ansatz=BuiltInAnsatze.UCCSD, ref_state=[1, 0, 0, 1]),
+                          patt="ss", sum_spin=True), modules=MODS, max_paths=32))
     out.append(Shape("canary/vqe_rdm", h_vqe_rdm, dict(opts=dict(molecule_key="SYM2", qubit_mapping="jw", up_then_down=False, ansatz=BuiltInAnsatze.UCCSD),
                                                         patt="ss", sum_spin=True, canary=True), modules=MODS, max_paths=32, canary=True))
     from harness.c04 import AUX_MOLS
